@@ -225,6 +225,8 @@ package electreIII
 //@   requires [nonneg_distillation] distillationFun != nil && nonnegOnUnit(*distillationFun)
 //@   ensures [ranking] result != nil
 //@   ensures [one_entry_per_alternative_given_in_that_order] len(*result) == len(alternatives) && forall a int :: 0 <= a && a < len(alternatives) ==> (*result)[a].Alternative == alternatives[a]
+//@   returnhint [ascending_index_from_the_ascending_distillation_descending_from_the_descending] forall a int :: 0 <= a && a < len(alternatives) ==>
+//@             electreEval((*result)[a].AlternativeResult, (*ascending)[a], (*descending)[a])
 //@   returnhint [both_distillations_of_the_same_matrix_with_the_configured_function] isAscRank(ascending, matrix, distillationFun) && isDescRank(descending, matrix, distillationFun)
 
 //@ func (*ElectreIIIPreferenceFunc).Evaluate
@@ -518,6 +520,6 @@ package electreIII
 
 // the parameter schema listed for this method is that of its input struct
 //@ func (*ElectreIIIPreferenceFunc).MethodParameters
-//@   property C20
+//@   property C20 C05 C06
 //@   nopanic
 //@   ensures [schema_of_the_methods_parameters] typeis(result, ElectreIIIInputParams)
